@@ -681,6 +681,9 @@ func (g *Gen) genBuy() *eng.Tx {
 		den := mk.BankDenom
 		if crossMarket && prevDenom != "" && prevDenom != mk.BankDenom && g.chance(0.5) {
 			den = prevDenom // the client keeps bidding in the previous entry's denom
+			if g.chance(0.6) {
+				qty = o.Quantity // a material purchase: the whole order
+			}
 		} else if g.hostile() && g.chance(0.35) {
 			// bid in a foreign denom: the denom of the previous entry of this message (a plausible
 			// client-side confusion) or a random one
